@@ -1,0 +1,21 @@
+//go:build verif
+// +build verif
+
+package deflate
+
+// VerifTrace, when set, receives one event per critical section of the
+// level 1/2 compressor (verif builds only; see /verif/spec/DynMechTrace.tla).
+var VerifTrace func(ev string, a, b, c, d int)
+
+func vtrace(ev string, a, b, c, d int) {
+	if VerifTrace != nil {
+		VerifTrace(ev, a, b, c, d)
+	}
+}
+
+func vbool(b bool) int {
+	if b {
+		return 1
+	}
+	return 0
+}
